@@ -20,12 +20,21 @@ TargetTypes == ElemTypes \cup Unsupported
                      TSlice(TMap(T("string"))), TPtr(TPtr(T("int64"))), TSlice(T("chan")), TMap(T("func")), TPtr(T("complex")), TArr(TPtr(Inner)),
                      \* collections of POINTERS to unpackers / structs (pre-filled with non-nil pointers in the "allocated" variant)
                      TSlice(TPtr(T("uany"))), TArr(TPtr(T("ustr"))), TMap(TPtr(T("uany"))), TSlice(TPtr(Inner)), TMap(TPtr(Inner)), TSlice(TPtr(T("int64")))}
+\* more of "arbitrary target types": maps keyed by a NAMED string type, collections whose elements are POINTERS to maps /
+\* slices / arrays, and interface{} fields that already hold a struct, an array, a slice or a map BY VALUE (or a pointer
+\* to a struct) - the kinds ifst, ifpst, ifarr, ifsl, ifmap are interface{} types that differ in what "allocated" puts there
+TNKMap(e) == [k |-> "nkmap", e |-> e]
+MoreTypes == {TNKMap(T("int64")), TNKMap(Inner), TNKMap(T("iface")), TPtr(TNKMap(T("string"))),
+              TPtr(TMap(T("int64"))), TMap(TPtr(TMap(T("int64")))), TMap(TPtr(TSlice(T("int64")))), TMap(TPtr(TArr(T("int64")))),
+              TSlice(TPtr(TMap(T("int64")))), TArr(TPtr(TMap(T("int64")))), TMap(TPtr(TPtr(Inner))),
+              T("ifst"), T("ifpst"), T("ifarr"), T("ifsl"), T("ifmap"),
+              TSlice(T("ifst")), TMap(T("ifst")), TArr(T("ifarr")), TPtr(T("ifst"))}
 VTags == {"", "required", "nonzero", "positive", "min=1", "max=5"}
 Settings == {None, Nil, PN("3"), PN("-1"), PN("1.5"), PS("x"), PS(""), PB(TRUE),
              N([q \in {"k"} |-> PN("1")], <<>>), N([q \in {"x", "y"} |-> IF q = "x" THEN PN("1") ELSE N([z \in {"z"} |-> PS("s")], <<>>)], <<>>),
              Empty, N(<<>>, <<PN("1"), PN("2")>>), N(<<>>, <<PN("1")>>), N(<<>>, <<PN("1"), PN("2"), PN("3")>>), N(<<>>, <<Nil, PS("x")>>),
              N(<<>>, <<N([q \in {"x"} |-> PN("1")], <<>>), N([q \in {"x"} |-> PS("s")], <<>>)>>), N(<<>>, <<N(<<>>, <<PN("1")>>)>>)}
-TypeSeq == SetToSeq(TargetTypes)
+TypeSeq == SetToSeq(TargetTypes \cup MoreTypes)
 
 VARIABLES ti, cs
 vars == <<ti, cs>>
